@@ -46,6 +46,12 @@ SPECS = [
          expect_error={'class': 'ExpressionError', 'token': '1 +'}, serves=['C19', 'C11', 'C04']),
     dict(id='S-Strict-rejects-pipe-middle', text='A<p tal:content="e1 | None | ??? | 2">x</p>B', options={'strict': True},
          expect_error={'class': 'ExpressionError', 'token': '???'}, serves=['C19', 'C11', 'C04']),
+    dict(id='S-Strict-rejects-second-macro',
+         # strict compilation visits EVERY macro body -- also one whose name denotes the same render
+         # function as an earlier macro ('a-b' and 'a_b')
+         text='A<m metal:define-macro="a-b">x</m><n metal:define-macro="a_b"><i tal:content="1 +"/></n>B',
+         options={'strict': True},
+         expect_error={'class': 'ExpressionError', 'token': '1 +'}, serves=['C19', 'C11']),
     dict(id='S-TextMode', text='a ${e1} $$ <b> &amp; x', cls='PageTextTemplate',
          ensures=[
              "evals(1) == 1",
